@@ -22,7 +22,7 @@ type FuncReport struct {
 }
 
 // verifyFunc generates the obligations of one function under contract.
-func verifyFunc(reg *Registry, pkgRel, key string) (rep FuncReport, obls []*Obligation) {
+func verifyFunc(reg *Registry, pkgRel, key string, closureOrd int) (rep FuncReport, obls []*Obligation) {
 	pkgPath := modulePath + "/" + pkgRel
 	rep = FuncReport{Pkg: pkgRel, Key: key}
 	fn, decl, pkg := reg.findFunc(pkgPath, key)
@@ -91,6 +91,43 @@ func verifyFunc(reg *Registry, pkgRel, key string) (rep FuncReport, obls []*Obli
 	}
 	fc.resNames = c.Results
 	fr.bindParams(st, decl.Recv, decl.Type, sig, recv, args)
+	body := decl.Body
+	if closureOrd > 0 {
+		// verify the k-th function literal of the function as a unit of its own: the enclosing
+		// function's receiver and parameters are its (symbolic) captured variables
+		var lit *ast.FuncLit
+		for l, k := range fr.litOrd {
+			if k == closureOrd {
+				lit = l
+			}
+		}
+		cc := c.Closures[closureOrd]
+		if lit == nil || cc == nil {
+			rep.Error = fmt.Sprintf("contract-detached:closure[%d] not found (literal or contract missing)", closureOrd)
+			return
+		}
+		name = fmt.Sprintf("%s$closure%d", name, closureOrd)
+		rep.Name, fc.name = name, name
+		rep.SourceHash = reg.sourceHash(lit)
+		lsig := pkg.TypesInfo.TypeOf(lit).(*types.Signature)
+		if len(cc.Params) != lsig.Params().Len() || (len(cc.Results) != 0 && len(cc.Results) != lsig.Results().Len()) {
+			rep.Error = "contract-detached:signature-changed (closure)"
+			return
+		}
+		inner := &frame{fc: fc, pkg: pkg, info: pkg.TypesInfo, fn: fn, sig: lsig, contract: cc}
+		inner.ords, inner.loopOrd, inner.litOrd, inner.callOrd = computeOrdinals(lit.Body, pkg.TypesInfo)
+		var largs []*Value
+		for i := 0; i < lsig.Params().Len(); i++ {
+			v := freshInput(st, lsig.Params().At(i).Type(), "in:"+cc.Params[i])
+			largs = append(largs, v)
+			if cc.Params[i] != "_" {
+				fc.paramVals[cc.Params[i]] = v
+			}
+		}
+		inner.bindParams(st, nil, lit.Type, lsig, nil, largs)
+		fc.root, fc.contract, fc.resNames = inner, cc, cc.Results
+		fr, c, sig, body = inner, cc, lsig, lit.Body
+	}
 	// requires
 	fc.entry = st // so that oldEnv works while evaluating requires
 	env := &SpecEnv{reg: reg, pkg: pkg, st: st, vars: fc.paramVals}
@@ -109,7 +146,7 @@ func verifyFunc(reg *Registry, pkgRel, key string) (rep FuncReport, obls []*Obli
 	}
 	fc.entry = st.clone()
 	fc.obls = append(fc.obls, &Obligation{Name: name + "/vacuity.pre", Hyps: append([]*Term(nil), st.pc...), Goal: TTrue, Kind: "vacuity", Func: name, Expect: "sat"})
-	outs := fr.execBlock(st, decl.Body.List)
+	outs := fr.execBlock(st, body.List)
 	for _, o := range outs {
 		switch o.ctl {
 		case cNormal:
